@@ -270,7 +270,7 @@ def check_poll_data(L, tier, log, samples):
     fs = Obj("frame::FrameStream<S, B>")
     fs.fields[(None, 2)] = Cell(owed)
     st.world["fs"] = Cell(fs)
-    E.call(ex, st, r"^frame::<impl at src/frame\.rs:5[^>]*>::poll_data$", [Ref(st.world["fs"]), Ref(Cell(Obj("Context")))])
+    E.call(ex, st, r"^frame::<impl[^>]*>::poll_data$", [Ref(st.world["fs"]), Ref(Cell(Obj("Context")))])
     outs = E.collect(ex, st)
     viols = []
     queries = 0
@@ -427,13 +427,13 @@ def check_poll_next(L, tier, log, samples):
         (r"BufList as Buf::has_remaining$|^BufList::has_remaining$|BufList as Buf::remaining$", c_has_rem),
         (r"^Arguments::from_str$|^std::rt::panic_fmt$", C.c_opaque),
     ] + c08.base_contracts()
-    inline = [(r"^FrameStream::try_recv$", r"^frame::<impl at src/frame\.rs:5[^>]*>::try_recv$")]
+    inline = [(r"^FrameStream::try_recv$", r"^frame::<impl[^>]*>::try_recv$")]
     ex = E.make_executor(L, inline, con, max_unroll=3)
     st = State()
     fs = Obj("frame::FrameStream<S, B>")
     fs.fields[(None, 2)] = Cell(z3.BitVecVal(0, 64))
     st.world["fs"] = Cell(fs)
-    E.call(ex, st, r"^frame::<impl at src/frame\.rs:5[^>]*>::poll_next$", [Ref(st.world["fs"]), Ref(Cell(Obj("Context")))])
+    E.call(ex, st, r"^frame::<impl[^>]*>::poll_next$", [Ref(st.world["fs"]), Ref(Cell(Obj("Context")))])
     outs = E.collect(ex, st)
     if ex.unroll_exceeded:
         raise Inconclusive("loop bound exceeded: " + repr(ex.unroll_exceeded[:3]))
